@@ -1014,6 +1014,9 @@ Db* varioData(Rng& r, int ndim, int nech, int nz)
 
 ASerializable* makeVario(Rng& r)
 {
+  // (variograms whose directions are given as grid increments are not generated: computing them, and even writing
+  //  a created-but-not-computed one, overruns Vario::_setResult / Vario::getAllSw for oblique or multi-cell increments;
+  //  see SENSITIVITY.md, seeded change C08-3)
   int ndim = (int)r.range(1, 3);
   int nech = (int)r.range(8, 40);
   int nz = (int)r.range(1, 2);
